@@ -28,6 +28,7 @@ import (
 	"errors"
 	"fmt"
 	"os"
+	"runtime"
 	"strconv"
 	"strings"
 	"sync"
@@ -61,7 +62,54 @@ const (
 	KPanic    = "panic"    // panic(value chosen by PV)
 	KExecFail = "execfail" // the fake makes Exec("STEP i") fail; the step returns gorm's error
 	KGroup    = "group"    // gormx.Combine(Sub...)
+	KGoexit   = "goexit"   // runtime.Goexit(): the goroutine running Transact ends inside the step
+	KAddErr   = "adderr"   // leaves an error on the handle (txn.AddError(stepError{i})) and returns nil: not a failure
 )
+
+// Error values of an "err" step (Step.PV): besides the injected stepError{i} ("") the
+// sentinels and driver errors a real step hands back.
+const (
+	PVDup         = "dup"         // *mysql.MySQLError 1062, duplicate entry
+	EVNotFound    = "notfound"    // gorm.ErrRecordNotFound
+	EVNoRows      = "norows"      // sql.ErrNoRows
+	EVTxDone      = "txdone"      // sql.ErrTxDone
+	EVCanceled    = "canceled"    // context.Canceled (whatever the context of the db)
+	EVDeadline    = "deadline"    // context.DeadlineExceeded (whatever the context of the db)
+	EVBadConn     = "badconn"     // driver.ErrBadConn
+	EVInvalidConn = "invalidconn" // mysql.ErrInvalidConn
+	EVDeadlock    = "my1213"      // *mysql.MySQLError 1213, deadlock victim
+	EVLockWait    = "my1205"      // *mysql.MySQLError 1205, lock wait timeout
+)
+
+var errKinds = []string{"", PVDup, EVNotFound, EVNoRows, EVTxDone, EVCanceled, EVDeadline, EVBadConn, EVInvalidConn, EVDeadlock, EVLockWait}
+
+// stepErrValue is the error leaf i returns for error kind pv.
+func stepErrValue(pv string, i int) error {
+	switch pv {
+	case PVDup:
+		// what a duplicate-key INSERT reports: callers look for it with errors.As / IsDupError
+		return &mysqldrv.MySQLError{Number: 1062, Message: fmt.Sprintf("Duplicate entry of step %d", i)}
+	case EVDeadlock:
+		return &mysqldrv.MySQLError{Number: 1213, Message: fmt.Sprintf("Deadlock found when trying to get lock (step %d)", i)}
+	case EVLockWait:
+		return &mysqldrv.MySQLError{Number: 1205, Message: fmt.Sprintf("Lock wait timeout exceeded (step %d)", i)}
+	case EVNotFound:
+		return gorm.ErrRecordNotFound
+	case EVNoRows:
+		return sql.ErrNoRows
+	case EVTxDone:
+		return sql.ErrTxDone
+	case EVCanceled:
+		return context.Canceled
+	case EVDeadline:
+		return context.DeadlineExceeded
+	case EVBadConn:
+		return driver.ErrBadConn
+	case EVInvalidConn:
+		return mysqldrv.ErrInvalidConn
+	}
+	return stepError{i}
+}
 
 // Panic value kinds.
 const (
@@ -71,7 +119,14 @@ const (
 	PVStruct  = "struct"  // panic(struct{Tok string; N int}{"pv<i>x", i})
 	PVNil     = "nil"     // panic(nil)  (a *runtime.PanicNilError since Go 1.21)
 	PVRuntime = "runtime" // a genuine run-time panic: index out of range
+	// values whose own Error()/String() method panics when a handler formats them
+	PVNilErr      = "nilerr"      // panic((*mysql.MySQLError)(nil)): an error whose Error() dereferences nil
+	PVBadStringer = "badstringer" // panic(badStringer{i}): String() panics
 )
+
+type badStringer struct{ N int }
+
+func (b badStringer) String() string { panic(fmt.Sprintf("badStringer %d: String() called", b.N)) }
 
 type Step struct {
 	Kind string `json:"kind"`
@@ -98,8 +153,17 @@ type Case struct {
 	BeginFail bool   `json:"begin_fail"`
 	// BeginErr: what a failing begin reports - "" an injected error value, "invalidconn" the MySQL driver's
 	// ErrInvalidConn (the one a dropped connection produces). BeginOnce: only the first begin attempt fails.
+	// "badconn" driver.ErrBadConn and "conndone" sql.ErrConnDone only on the "pool" back-end (database/sql retries
+	// ErrBadConn by itself, which would show begin attempts that are not Transact's doing).
 	BeginErr  string `json:"begin_err,omitempty"`
 	BeginOnce bool   `json:"begin_once,omitempty"`
+	// CommitErr: what a failing commit reports - "" an injected error value, "invalidconn", "badconn".
+	CommitErr string `json:"commit_err,omitempty"`
+	// EmptySlice: with no steps, Transact is handed an empty non-nil slice ([]GormProcFn{}...) instead of nothing.
+	EmptySlice bool `json:"empty_slice,omitempty"`
+	// Twice: Transact is invoked a second time with the SAME step functions / Combine values (fresh fake, fresh
+	// event log, same oracle): a GormProcFn that keeps state between invocations shows.
+	Twice bool `json:"twice,omitempty"`
 	// Translate: the db is opened with gorm.Config{TranslateError: true} (gorm then rewrites driver errors it adds
 	// itself - a step\'s own error must still come back unchanged)
 	Translate    bool `json:"translate,omitempty"`
@@ -126,10 +190,26 @@ func (e txError) Error() string { return "injected " + e.Op + " failure" }
 
 // beginError is the error a failing begin reports.
 func beginError(kind string) error {
-	if kind == "invalidconn" {
+	switch kind {
+	case "invalidconn":
 		return mysqldrv.ErrInvalidConn
+	case "badconn":
+		return driver.ErrBadConn
+	case "conndone":
+		return sql.ErrConnDone
 	}
 	return txError{"begin"}
+}
+
+// commitError is the error a failing commit reports.
+func commitError(kind string) error {
+	switch kind {
+	case "invalidconn":
+		return mysqldrv.ErrInvalidConn
+	case "badconn":
+		return driver.ErrBadConn
+	}
+	return txError{"commit"}
 }
 
 type panicStruct struct {
@@ -143,6 +223,7 @@ type panicStruct struct {
 type faults struct {
 	begin, commit, rollback bool
 	beginErr                error // what a failing begin returns
+	commitErr               error // what a failing commit returns
 	beginOnce               bool  // only the first attempt fails
 	beginTries              int
 	exec                    map[string]int // query -> leaf index whose Exec fails
@@ -198,7 +279,7 @@ func (l *eventLog) commit() error {
 	defer l.finish()
 	if l.f.commit {
 		l.add("Commit!fail")
-		return txError{"commit"}
+		return l.f.commitErr
 	}
 	l.add("Commit")
 	return nil
@@ -383,7 +464,7 @@ func flatten(steps []Step, out []leaf, skipped *[]string) []leaf {
 		switch s.Kind {
 		case KGroup:
 			out = flatten(s.Sub, out, skipped)
-		case KOk, KErr, KPanic, KExecFail:
+		case KOk, KErr, KPanic, KExecFail, KGoexit, KAddErr:
 			out = append(out, leaf{s.Kind, s.PV})
 		default:
 			*skipped = append(*skipped, "unknown step kind")
@@ -405,6 +486,10 @@ func panicValue(pv string, i int) (v any, token string) {
 		return nil, ""
 	case PVRuntime:
 		return nil, "index out of range"
+	case PVNilErr:
+		return (*mysqldrv.MySQLError)(nil), ""
+	case PVBadStringer:
+		return badStringer{i}, ""
 	default:
 		return tok, tok
 	}
@@ -419,6 +504,7 @@ type run struct {
 	cancelAt  int           // leaf that cancels the context after its Exec (-1: none)
 	cancel    context.CancelFunc
 	cancelled bool // the cancelling step really ran (harness fact, not the model)
+	goexited  int  // the leaf that ended the goroutine with runtime.Goexit (-1: none; harness fact)
 }
 
 func (r *run) build(steps []Step) []gormx.GormProcFn {
@@ -427,7 +513,7 @@ func (r *run) build(steps []Step) []gormx.GormProcFn {
 		switch s.Kind {
 		case KGroup:
 			fns = append(fns, gormx.Combine(r.build(s.Sub)...))
-		case KOk, KErr, KPanic, KExecFail:
+		case KOk, KErr, KPanic, KExecFail, KGoexit, KAddErr:
 			fns = append(fns, r.leafFn(r.next, s))
 			r.next++
 		}
@@ -445,13 +531,15 @@ func (r *run) leafFn(i int, s Step) gormx.GormProcFn {
 		}
 		switch s.Kind {
 		case KErr:
-			var e error = stepError{i}
-			if s.PV == PVDup {
-				// what a duplicate-key INSERT reports: callers look for it with errors.As / IsDupError
-				e = &mysqldrv.MySQLError{Number: 1062, Message: fmt.Sprintf("Duplicate entry of step %d", i)}
-			}
+			e := stepErrValue(s.PV, i)
 			r.returned[i] = e
 			return e
+		case KAddErr:
+			_ = txn.AddError(stepError{i}) // the handle now carries an error; the step itself succeeds
+			return nil
+		case KGoexit:
+			r.goexited = i
+			runtime.Goexit()
 		case KPanic:
 			if s.PV == PVRuntime {
 				var empty []int
@@ -506,18 +594,43 @@ func Exec(c Case) *vkit.Result {
 		res.Skip("unknown context mode (ran without a context)")
 		mode = CtxNone
 	}
+	if backend == "sqldrv" && (c.BeginErr == "badconn" || c.BeginErr == "conndone") {
+		// database/sql would retry the begin by itself: those attempts are not Transact's doing
+		res.Skip("begin error " + c.BeginErr + " on the database/sql fake (ran with the injected error value)")
+		c.BeginErr = ""
+	}
 	var leaves []leaf
 	leaves = flatten(c.Steps, leaves, &res.Skipped)
+	r := &run{leaves: leaves, cancelAt: -1, goexited: -1}
+	// the step functions and Combine values are built once; a second invocation (Twice) reuses them
+	fns := r.build(c.Steps)
+	if len(fns) == 0 && c.EmptySlice {
+		fns = []gormx.GormProcFn{}
+	}
+	execPass(c, backend, mode, r, fns, res)
+	if c.Twice && res.Fail == nil {
+		res.Class("invoked twice with the same step values")
+		execPass(c, backend, mode, r, fns, res)
+		if res.Fail != nil {
+			res.Fail.Msg = "at the SECOND invocation of Transact with the same step functions / Combine values: " + res.Fail.Msg
+		}
+	}
+	return res
+}
+
+// execPass invokes Transact once on a fresh fake with a fresh event log and judges
+// that invocation.
+func execPass(c Case, backend, mode string, r *run, fns []gormx.GormProcFn, res *vkit.Result) *vkit.Result {
+	leaves := r.leaves
 	log := &eventLog{finished: make(chan struct{}),
 		f: faults{begin: c.BeginFail, commit: c.CommitFail, rollback: c.RollbackFail, exec: map[string]int{},
-			beginErr: beginError(c.BeginErr), beginOnce: c.BeginOnce}}
+			beginErr: beginError(c.BeginErr), beginOnce: c.BeginOnce, commitErr: commitError(c.CommitErr)}}
 	for i, l := range leaves {
 		if l.kind == KExecFail {
 			log.f.exec[fmt.Sprintf("STEP %d", i)] = i
 		}
 	}
-	r := &run{log: log, leaves: leaves, returned: map[int]error{}, cancelAt: -1}
-	fns := r.build(c.Steps)
+	r.log, r.returned, r.cancelAt, r.cancel, r.cancelled, r.goexited = log, map[int]error{}, -1, nil, false, -1
 
 	db, closeFn, err := openGorm(backend, log, c.Translate)
 	defer closeFn()
@@ -547,18 +660,40 @@ func Exec(c Case) *vkit.Result {
 	}
 
 	// ---- run -----------------------------------------------------------------
+	// When some step ends its goroutine (runtime.Goexit) Transact never returns to its
+	// caller: it then runs on a goroutine of its own, and the wait below ends when that
+	// goroutine ends, whichever way.
 	var got error
 	var escaped any
-	didEscape := true
-	func() {
+	outcome := "goexit" // "returned" | "panic" | "goexit"
+	done := make(chan struct{})
+	call := func() {
+		defer close(done)
 		defer func() {
-			if didEscape {
-				escaped = recover()
+			if outcome != "returned" {
+				if v := recover(); v != nil {
+					escaped, outcome = v, "panic"
+				}
 			}
 		}()
-		got = gormx.Transact(db, fns...)
-		didEscape = false
-	}()
+		if len(fns) == 0 && !c.EmptySlice {
+			got = gormx.Transact(db)
+		} else {
+			got = gormx.Transact(db, fns...)
+		}
+		outcome = "returned"
+	}
+	ownGoroutine := false
+	for _, l := range leaves {
+		ownGoroutine = ownGoroutine || l.kind == KGoexit
+	}
+	if ownGoroutine {
+		go call()
+	} else {
+		call()
+	}
+	<-done
+	didEscape := outcome == "panic"
 	// Under database/sql a transaction whose context is over is rolled back by
 	// database/sql's own goroutine (Tx.awaitDone), possibly after Transact returned.
 	// That goroutine is certain to finish the transaction whatever Transact did, so
@@ -581,9 +716,9 @@ func Exec(c Case) *vkit.Result {
 
 	// ---- the model --------------------------------------------------------------
 	nTop := len(fns)
-	first := -1 // first failing leaf
+	first := -1 // first failing leaf (a step that leaves an error on the handle and returns nil has not failed)
 	for i, l := range leaves {
-		if l.kind != KOk {
+		if l.kind != KOk && l.kind != KAddErr {
 			first = i
 			break
 		}
@@ -591,6 +726,16 @@ func Exec(c Case) *vkit.Result {
 	last := len(leaves) - 1 // last leaf that must run
 	if first >= 0 {
 		last = first
+	}
+	// handleErr: the first leaf <= last that leaves an error on the handle. gorm itself drops every later
+	// statement issued through that handle, and hands the error back from Commit: the steps behind it still
+	// run, their Exec need not reach the fake, and the result of a committed transaction is unconstrained.
+	handleErr := never
+	for i := 0; i <= last; i++ {
+		if leaves[i].kind == KAddErr {
+			handleErr = i
+			break
+		}
 	}
 	// cancelIdx: the leaf after whose Exec the context is over (-1: before Transact)
 	cancelIdx := never
@@ -605,6 +750,9 @@ func Exec(c Case) *vkit.Result {
 	if c.CommitFail {
 		wantCommit = "Commit!fail"
 	}
+	if r.goexited >= 0 && outcome != "goexit" {
+		panic(fmt.Sprintf("harness: step %d called runtime.Goexit, yet the goroutine went on (%s)", r.goexited, outcome))
+	}
 	if c.RollbackFail {
 		wantRollback = "Rollback!fail"
 	}
@@ -615,7 +763,8 @@ func Exec(c Case) *vkit.Result {
 		return fmt.Sprintf("Exec STEP %d", i)
 	}
 	// under database/sql a statement issued on a cancelled context need not reach the driver
-	execOptional := func(i int) bool { return backend == "sqldrv" && i > cancelIdx }
+	// (nor one issued through a handle that carries an error, whatever the fake)
+	execOptional := func(i int) bool { return (backend == "sqldrv" && i > cancelIdx) || i > handleErr }
 	wantStepsUpTo := func(j int) []string {
 		var w []string
 		for i := 0; i <= j; i++ {
@@ -634,14 +783,22 @@ func Exec(c Case) *vkit.Result {
 	beginRefused := backend == "sqldrv" && cancelIdx == -1 // database/sql refuses to begin on a finished context
 	began := nTop > 0 && !c.BeginFail && !beginRefused
 	switch {
+	case nTop == 0 && c.EmptySlice:
+		res.Class("no steps (empty non-nil list)")
 	case nTop == 0:
 		res.Class("no steps")
 	case beginRefused:
 		res.Class("sqldrv: begin refused, context already over")
 	case c.BeginFail:
 		res.Class("begin fails")
+		if c.BeginErr != "" {
+			res.Class("begin error: " + c.BeginErr)
+		}
 	case first < 0 && c.CommitFail:
 		res.Class("all steps ok, commit fails")
+		if c.CommitErr != "" {
+			res.Class("commit error: " + c.CommitErr)
+		}
 	case first < 0:
 		res.Class("all steps ok, commit ok")
 	}
@@ -654,6 +811,9 @@ func Exec(c Case) *vkit.Result {
 				pv = PVString
 			}
 			res.Class("panic value: " + pv)
+		}
+		if l.kind == KErr && l.pv != "" {
+			res.Class("error value: " + l.pv)
 		}
 		switch {
 		case first == 0 && len(leaves) == 1:
@@ -695,6 +855,9 @@ func Exec(c Case) *vkit.Result {
 			res.Class("ctx over + failure on " + backend)
 		}
 	}
+	if began && handleErr != never {
+		res.Class("a step leaves an error on the handle and returns nil")
+	}
 	if mode == CtxStep && cancelIdx == never {
 		res.Class("ctx:step never reached (acts as live)")
 	}
@@ -715,10 +878,17 @@ func Exec(c Case) *vkit.Result {
 		if mode == CtxStep {
 			ctxTxt = fmt.Sprintf("cancelled by step %d after its Exec", c.CancelAt)
 		}
-		return fmt.Sprintf("\n backend %s, context: %s\n observed events: %v\n returned error:  %v", backend, ctxTxt, events, got)
+		ret := fmt.Sprintf("%v", got)
+		if outcome == "goexit" {
+			ret = "(Transact did not return: its goroutine ended)"
+		}
+		return fmt.Sprintf("\n backend %s, context: %s\n observed events: %v\n returned error:  %s", backend, ctxTxt, events, ret)
 	}
 	if didEscape {
-		return res.Failf("panic-escaped", "Transact let a panic escape: %v%s", escaped, show())
+		return res.Failf("panic-escaped", "Transact let a panic escape: %v%s", fmt.Sprintf("%v", escaped), show())
+	}
+	if outcome == "goexit" && r.goexited < 0 {
+		return res.Failf("goexit/unexpected", "the goroutine calling Transact ended inside Transact although no step ended it%s", show())
 	}
 	// no statement may reach the database outside the transaction, and gorm must not
 	// need anything but Begin/Exec/Commit/Rollback here
@@ -842,10 +1012,21 @@ func Exec(c Case) *vkit.Result {
 	}
 	// -- result
 	switch {
+	case outcome == "goexit":
+		// step `first` ended the goroutine (a later one would have been reported above): Transact never
+		// returned, there is no result; the transaction was rolled back exactly once, which is all that is owed
+		if r.goexited != first {
+			panic(fmt.Sprintf("harness: goexit in step %d, first failing step %d%s", r.goexited, first, show()))
+		}
 	case aborted:
 		if got == nil {
 			return res.Failf("result/nil-after-abort", "steps %d..%d never ran, the transaction was rolled back, yet Transact returned nil%s", len(calls), last, show())
 		}
+	case first < 0 && finish == "Commit" && handleErr != never:
+		// every step returned nil and the transaction is committed, as the statement demands; a step left an
+		// error on the handle, which gorm hands back from Commit: the statement does not say what the caller
+		// gets then (nil only if the commit succeeded - it did)
+		res.Class("committed with an error left on the handle (result unconstrained)")
 	case first < 0 && finish == "Commit":
 		if got != nil {
 			return res.Failf("result/commit-ok", "every step succeeded and the commit succeeded, but Transact returned an error%s", show())
@@ -905,8 +1086,10 @@ func bucket(n int) string {
 		return fmt.Sprint(n)
 	case n <= 8:
 		return "5-8"
+	case n <= 16:
+		return "9-16"
 	default:
-		return "9+"
+		return "17+"
 	}
 }
 
@@ -937,7 +1120,7 @@ func countLeaves(steps []Step) int {
 		switch s.Kind {
 		case KGroup:
 			n += countLeaves(s.Sub)
-		case KOk, KErr, KPanic, KExecFail:
+		case KOk, KErr, KPanic, KExecFail, KGoexit, KAddErr:
 			n++
 		}
 	}
@@ -960,7 +1143,7 @@ func leaflessGroupAfter(steps []Step, idx int) bool {
 				} else if walk(s.Sub) {
 					return true
 				}
-			case KOk, KErr, KPanic, KExecFail:
+			case KOk, KErr, KPanic, KExecFail, KGoexit, KAddErr:
 				n++
 			}
 		}
@@ -980,7 +1163,7 @@ func insideGroup(steps []Step, idx int) bool {
 				return true
 			}
 			n += k
-		case KOk, KErr, KPanic, KExecFail:
+		case KOk, KErr, KPanic, KExecFail, KGoexit, KAddErr:
 			if idx == n {
 				return false
 			}
@@ -999,12 +1182,79 @@ func insideGroup(steps []Step, idx int) bool {
 // context mode: live, cancelled before, deadline expired before, cancelled inside
 // step k for every k < n.
 func EnumCases(maxN, maxNCtx int) []Case {
-	out := enumCases(maxN, false)
-	return append(out, enumCases(maxNCtx, true)...)
+	base := []Step{{Kind: KOk}, {Kind: KErr}, {Kind: KPanic, PV: PVString}}
+	out := enumCases(maxN, false, base, "")
+	out = append(out, enumCases(maxNCtx, true, base, "")...)
+	// lists that contain a step ending the goroutine (runtime.Goexit), and lists that contain a step leaving
+	// an error on the handle: 1..3 steps without a context, 1..2 steps under every context mode
+	for _, extra := range []string{KGoexit, KAddErr} {
+		kinds := append(append([]Step(nil), base...), Step{Kind: extra})
+		out = append(out, enumCases(3, false, kinds, extra)...)
+		out = append(out, enumCases(2, true, kinds, extra)...)
+	}
+	return append(out, enumExtras()...)
 }
 
-func enumCases(maxN int, withCtx bool) []Case {
-	kinds := []Step{{Kind: KOk}, {Kind: KErr}, {Kind: KPanic, PV: PVString}}
+// enumExtras: small complete families beyond the outcome vectors.
+func enumExtras() []Case {
+	var out []Case
+	ok := Step{Kind: KOk}
+	for _, be := range Backends {
+		// every error value, alone and in the middle, without a context and under a live one, rollback ok/failing
+		for _, ev := range errKinds[1:] {
+			e := Step{Kind: KErr, PV: ev}
+			for _, steps := range [][]Step{{e}, {ok, e, ok}} {
+				for _, ctx := range []string{"", CtxLive} {
+					for _, rf := range []bool{false, true} {
+						out = append(out, Case{Backend: be, Steps: steps, Ctx: ctx, RollbackFail: rf})
+					}
+				}
+			}
+		}
+		// panic values whose own Error()/String() panics
+		for _, pv := range []string{PVNilErr, PVBadStringer} {
+			p := Step{Kind: KPanic, PV: pv}
+			for _, steps := range [][]Step{{p}, {ok, p, ok}} {
+				for _, rf := range []bool{false, true} {
+					out = append(out, Case{Backend: be, Steps: steps, RollbackFail: rf})
+				}
+			}
+		}
+		// three leaves in every Combine shape, each invoked once and twice with the same values
+		kinds := []Step{{Kind: KOk}, {Kind: KErr}, {Kind: KPanic, PV: PVString}}
+		for code := 0; code < 27; code++ {
+			a, b, c3 := kinds[code%3], kinds[code/3%3], kinds[code/9]
+			g := func(sub ...Step) Step { return Step{Kind: KGroup, Sub: sub} }
+			for _, steps := range [][]Step{{g(a, b), c3}, {a, g(b, c3)}, {g(a, g(b, c3))}, {g(a, b, c3)}} {
+				for _, twice := range []bool{false, true} {
+					out = append(out, Case{Backend: be, Steps: steps, Twice: twice})
+				}
+			}
+		}
+		// long top-level lists: all ok; a failure at position 16, 17 and at the end
+		for _, n := range []int{13, 16, 17, 18, 33, 40} {
+			for _, fail := range []int{-1, 16, 17, n - 1} {
+				if fail >= n {
+					continue
+				}
+				for _, cf := range []bool{false, true} {
+					steps := make([]Step, n)
+					for i := range steps {
+						steps[i] = ok
+					}
+					if fail >= 0 {
+						steps[fail] = Step{Kind: KErr}
+					}
+					out = append(out, Case{Backend: be, Steps: steps, CommitFail: cf})
+				}
+			}
+		}
+	}
+	return out
+}
+
+// enumCases: every list of 0..maxN steps over kinds (only those containing kind `must`, if given).
+func enumCases(maxN int, withCtx bool, kinds []Step, must string) []Case {
 	var out []Case
 	for _, be := range Backends {
 		for n := 0; n <= maxN; n++ {
@@ -1014,8 +1264,13 @@ func enumCases(maxN int, withCtx bool) []Case {
 			}
 			for code := 0; code < total; code++ {
 				steps := make([]Step, n)
+				has := must == ""
 				for i, x := 0, code; i < n; i, x = i+1, x/len(kinds) {
 					steps[i] = kinds[x%len(kinds)]
+					has = has || steps[i].Kind == must
+				}
+				if !has {
+					continue
 				}
 				type cm struct {
 					mode string
@@ -1032,11 +1287,30 @@ func enumCases(maxN int, withCtx bool) []Case {
 					for f := 0; f < 8; f++ {
 						out = append(out, Case{Backend: be, Steps: steps, Ctx: m.mode, CancelAt: m.at,
 							BeginFail: f&1 != 0, CommitFail: f&2 != 0, RollbackFail: f&4 != 0})
+						if n == 0 {
+							// no steps: also as an empty non-nil list
+							out = append(out, Case{Backend: be, Steps: steps, Ctx: m.mode, CancelAt: m.at, EmptySlice: true,
+								BeginFail: f&1 != 0, CommitFail: f&2 != 0, RollbackFail: f&4 != 0})
+						}
+						if must != "" {
+							continue
+						}
 						if f == 1 && m.mode == "" {
 							// a begin that fails the way a dropped connection does, and one that would work at a second attempt
 							out = append(out, Case{Backend: be, Steps: steps, BeginFail: true, BeginErr: "invalidconn"},
 								Case{Backend: be, Steps: steps, BeginFail: true, BeginErr: "invalidconn", BeginOnce: true},
 								Case{Backend: be, Steps: steps, BeginFail: true, BeginOnce: true})
+							if be == "pool" {
+								for _, k := range []string{"badconn", "conndone"} {
+									out = append(out, Case{Backend: be, Steps: steps, BeginFail: true, BeginErr: k},
+										Case{Backend: be, Steps: steps, BeginFail: true, BeginErr: k, BeginOnce: true})
+								}
+							}
+						}
+						if f == 2 && m.mode == "" {
+							// a commit that fails the way a dead connection does
+							out = append(out, Case{Backend: be, Steps: steps, CommitFail: true, CommitErr: "invalidconn"},
+								Case{Backend: be, Steps: steps, CommitFail: true, CommitErr: "badconn"})
 						}
 					}
 				}
@@ -1051,26 +1325,28 @@ func enumCases(maxN int, withCtx bool) []Case {
 
 const maxLeaves = 12
 
-var pvKinds = []string{PVString, PVError, PVInt, PVStruct, PVNil, PVRuntime}
+// maxLong: the longest list of the occasional long cases (13..maxLong steps, mostly all at top level)
+const maxLong = 40
+
+var pvKinds = []string{PVString, PVError, PVInt, PVStruct, PVNil, PVRuntime, PVNilErr, PVBadStringer}
 
 func genLeaf(t *rapid.T, failing bool) Step {
 	if !failing {
 		return Step{Kind: KOk}
 	}
-	switch rapid.IntRange(0, 4).Draw(t, "failkind") {
+	switch rapid.IntRange(0, 7).Draw(t, "failkind") {
 	case 0:
 		return Step{Kind: KErr}
-	case 1:
-		return Step{Kind: KErr, PV: rapid.SampledFrom([]string{"", PVDup}).Draw(t, "errkind")}
-	case 2:
+	case 1, 2:
+		return Step{Kind: KErr, PV: rapid.SampledFrom(errKinds).Draw(t, "errkind")}
+	case 3:
 		return Step{Kind: KExecFail}
+	case 4:
+		return Step{Kind: KGoexit}
 	default:
 		return Step{Kind: KPanic, PV: rapid.SampledFrom(pvKinds).Draw(t, "pv")}
 	}
 }
-
-// PVDup on an "err" step: the error is the MySQL driver's duplicate-entry error.
-const PVDup = "dup"
 
 // genTree wraps a flat list of leaves into a random Combine tree (depth <= 3),
 // sprinkling empty Combine() calls.
@@ -1104,6 +1380,11 @@ func Gen(t *rapid.T) Case {
 	} else if rapid.IntRange(0, 2).Draw(t, "long") == 2 {
 		n = rapid.IntRange(5, maxLeaves).Draw(t, "nLong")
 	}
+	// occasionally a really long list (1/24; 1/8 in the thorough tier)
+	huge := n > 0 && rapid.IntRange(1, hugeOneIn()).Draw(t, "huge") == hugeOneIn()
+	if huge {
+		n = rapid.IntRange(maxLeaves+1, maxLong).Draw(t, "nHuge")
+	}
 	leaves := make([]Step, n)
 	for i := range leaves {
 		leaves[i] = Step{Kind: KOk}
@@ -1124,7 +1405,15 @@ func Gen(t *rapid.T) Case {
 			}
 		}
 	}
-	if rapid.IntRange(0, 3).Draw(t, "nest") == 0 {
+	// a step that leaves an error on the handle and returns nil (not a failure), in 1/12 of the cases
+	if n > 0 && rapid.IntRange(0, 11).Draw(t, "addErr") == 0 {
+		if p := genPos(t, n); leaves[p].Kind == KOk {
+			leaves[p] = Step{Kind: KAddErr}
+		}
+	}
+	if huge && rapid.IntRange(0, 3).Draw(t, "nestHuge") != 0 {
+		c.Steps = leaves // 13..40 top-level steps
+	} else if rapid.IntRange(0, 3).Draw(t, "nest") == 0 {
 		c.Steps = leaves
 	} else {
 		c.Steps = genTree(t, leaves, 3)
@@ -1132,7 +1421,7 @@ func Gen(t *rapid.T) Case {
 	// context of the db (rapid favours small draws, so "none" comes out near 1/3): none, live, cancelled, deadline, a step cancels
 	first, nLeaves := -1, len(leaves)
 	for i, l := range leaves {
-		if l.Kind != KOk {
+		if l.Kind != KOk && l.Kind != KAddErr {
 			first = i
 			break
 		}
@@ -1161,13 +1450,32 @@ func Gen(t *rapid.T) Case {
 	}
 	c.BeginFail = rapid.IntRange(0, 11).Draw(t, "beginFail") == 11
 	if c.BeginFail {
-		c.BeginErr = rapid.SampledFrom([]string{"", "invalidconn"}).Draw(t, "beginErr")
+		kinds := []string{"", "invalidconn"}
+		if c.Backend == "pool" {
+			kinds = []string{"", "invalidconn", "badconn", "conndone"}
+		}
+		c.BeginErr = rapid.SampledFrom(kinds).Draw(t, "beginErr")
 		c.BeginOnce = rapid.Bool().Draw(t, "beginOnce")
 	}
 	c.Translate = rapid.IntRange(0, 3).Draw(t, "translate") == 0
 	c.CommitFail = rapid.IntRange(0, 2).Draw(t, "commitFail") == 2
+	if c.CommitFail {
+		c.CommitErr = rapid.SampledFrom([]string{"", "invalidconn", "badconn"}).Draw(t, "commitErr")
+	}
 	c.RollbackFail = rapid.IntRange(0, 2).Draw(t, "rollbackFail") == 2
+	if len(c.Steps) == 0 {
+		c.EmptySlice = rapid.Bool().Draw(t, "emptySlice")
+	}
+	// 1/8 of the cases: Transact is invoked a second time with the same step values
+	c.Twice = rapid.IntRange(0, 7).Draw(t, "twice") == 7
 	return c
+}
+
+func hugeOneIn() int {
+	if vkit.Tier() == "thorough" {
+		return 8
+	}
+	return 24
 }
 
 func genPos(t *rapid.T, n int) int {
@@ -1188,14 +1496,14 @@ const ntRule = "Non-trivial: the transaction was begun and (the first failing st
 
 var PartEnum = &vkit.Part[Case]{
 	Property: Property, Name: "outcomes",
-	Rule:  "complete enumeration, once per fake (in-memory gorm.ConnPool with ConnPoolBeginner/TxCommitter; in-process database/sql driver under *sql.DB), both below gorm's MySQL dialector: every step list of length 0..4 over {return nil, return an error, panic} x begin {ok, fails} x commit {ok, fails} x rollback {ok, fails} without a context (2 x 968 cases), and every step list of length 0..3 over the same outcomes x the db carrying a context that is {live, cancelled before Transact, past its deadline before Transact, cancelled by step k right after its Exec for every k < n} x the same begin/commit/rollback faults (2 x 1776 cases); each step logs its call and issues Exec(\"STEP i\"); the Begin/Exec/Commit/Rollback calls reaching the fake are compared with the sequence the statement prescribes, the returned error with the first failing step. " + ntRule,
+	Rule:  "complete enumeration, once per fake (in-memory gorm.ConnPool with ConnPoolBeginner/TxCommitter; in-process database/sql driver under *sql.DB), both below gorm's MySQL dialector: every step list of length 0..4 over {return nil, return an error, panic} x begin {ok, fails} x commit {ok, fails} x rollback {ok, fails} without a context (2 x 968 cases), and every step list of length 0..3 over the same outcomes x the db carrying a context that is {live, cancelled before Transact, past its deadline before Transact, cancelled by step k right after its Exec for every k < n} x the same begin/commit/rollback faults (2 x 1776 cases); each step logs its call and issues Exec(\"STEP i\"); the Begin/Exec/Commit/Rollback calls reaching the fake are compared with the sequence the statement prescribes, the returned error with the first failing step. No steps: handed over as nothing and as an empty non-nil list. Without a context also: a begin failing with mysql.ErrInvalidConn (on the in-memory pool also driver.ErrBadConn, sql.ErrConnDone), at every attempt or only the first; a commit failing with mysql.ErrInvalidConn / driver.ErrBadConn. Further complete families: every list of 1..3 steps (1..2 under every context mode) over the same outcomes plus {the step ends its goroutine with runtime.Goexit} resp. plus {the step leaves an error on the handle with AddError and returns nil} that contains such a step, x the same faults; each of ten well-known error values (gorm.ErrRecordNotFound, sql.ErrNoRows, sql.ErrTxDone, context.Canceled, context.DeadlineExceeded, driver.ErrBadConn, mysql.ErrInvalidConn, MySQL 1062/1213/1205) as the only step and in the middle, no context / live context, rollback ok / failing; panic values whose own Error()/String() panics; every outcome vector of three leaves in four Combine shapes, invoked once and twice with the same step values; 13..40 top-level steps all succeeding or failing at step 16, 17 or the last. " + ntRule,
 	Quick: 1, Thorough: 1,
 	Gen: Gen, Exec: Exec,
 }
 
 var PartRandom = &vkit.Part[Case]{
 	Property: Property, Name: "random",
-	Rule:  "rapid: 1..12 leaf steps (none at all in 1/20 of the cases; all ok / one failure at first, last or drawn position / two failures / each failing with p=1/3; failure = returned error, Exec failing inside the fake and handed back through gorm, or a panic with a string, error, int, struct, nil or run-time-error value) wrapped into a random gormx.Combine tree of depth <= 3 with empty Combine() calls, x context of the db (none about 1/3, live, cancelled before Transact, deadline expired before Transact, cancelled inside a step about 1/3 - mostly the first failing step or one before it) x backend x begin fails (1/12) x commit fails (1/3) x rollback fails (1/3); same oracle as the enumeration. " + ntRule,
+	Rule:  "rapid: 1..12 leaf steps (none at all in 1/20 of the cases; all ok / one failure at first, last or drawn position / two failures / each failing with p=1/3; failure = returned error - an injected value or one of ten well-known sentinels / driver errors -, Exec failing inside the fake and handed back through gorm, runtime.Goexit inside the step, or a panic with a string, error, int, struct, nil or run-time-error value or a value whose own Error()/String() panics; in 1/12 of the cases one succeeding step leaves an error on the handle (AddError) and returns nil; about 1/24 of the cases - 1/8 in the thorough tier - have 13..40 steps, mostly all at top level) wrapped into a random gormx.Combine tree of depth <= 3 with empty Combine() calls, x context of the db (none about 1/3, live, cancelled before Transact, deadline expired before Transact, cancelled inside a step about 1/3 - mostly the first failing step or one before it) x backend x begin fails (1/12; injected value, mysql.ErrInvalidConn, on the pool also driver.ErrBadConn / sql.ErrConnDone; always or only at the first attempt) x commit fails (1/3; injected value, mysql.ErrInvalidConn or driver.ErrBadConn) x rollback fails (1/3); no steps: nothing or an empty non-nil list; about 1/8 of the cases invoke Transact a second time with the same step functions / Combine values on a fresh fake; same oracle as the enumeration. " + ntRule,
 	Quick: 20000, Thorough: 20000,
 	Gen: Gen, Exec: Exec,
 }
